@@ -104,6 +104,9 @@ type tagEval struct {
 	heap       map[int64]map[int]aval
 	nextObj    int64
 	heapForked bool
+	// unevaluated counts calls to library functions with a body that were not followed
+	// because nothing was known about their arguments
+	unevaluated int
 }
 
 // newObj allocates an abstract struct object with the given fields.
@@ -711,6 +714,7 @@ func (te *tagEval) call(fr *frame, call *ssa.Call, depth int, outs *[]outcome) {
 		}
 	}
 	if !known {
+		te.unevaluated++
 		return
 	}
 	res := te.Eval(g, args, depth+1)
